@@ -7,6 +7,7 @@ import Pandora.Gen.HclYaml
 import Pandora.Model.C16
 import Pandora.Model.C16Locals
 import Pandora.Model.C16Src
+import Pandora.Model.C16Text
 
 namespace Pandora.Bridge.HclYaml
 open Pandora.Go Pandora.Model.C16
@@ -180,5 +181,26 @@ def sameSet (a b : List (String × Nat × String)) : Bool := a.all b.contains &&
 ammo from its result and nothing else: the syntax of the file can reach the ammo only through the `AmmoConfig` -/
 theorem provider_flow : sameSet (flowOf "http") flowExpected = true ∧ sameSet (flowOf "grpc") flowExpected = true := by
   decide
+
+/-! ### round 6: the text between `io.ReadAll` and the parser; the I/O shape of `ReadAmmoConfig` -/
+
+/-- what `ParseHCLFile` does to the text of the file before `ParseHCL` (regenerated chain, translated; `none` = a call the
+model does not know) -/
+def hclSteps : Option (List TextStep) := stepsOf Gen.HclYaml.hclTextSteps
+
+/-- what `ParseAmmoConfig` does to the text before `DecodeMap` -/
+def yamlSteps : Option (List TextStep) := stepsOf Gen.HclYaml.yamlTextSteps
+
+/-- the HCL front-end replaces CR LF by LF and does nothing else to the text; the YAML front-end hands the text to
+`DecodeMap` (yaml.v2) as it was read -/
+theorem text_steps : hclSteps = some [.replaceAll "\r\n" "\n"] ∧ yamlSteps = some [] := by decide
+
+/-- `ReadAmmoConfig` treats the errors of Open / Stat / Close as the model `readAmmoConfig` does: each refuses the file
+(the Close error through the named result, written by the deferred closure on every path) -/
+def readFlowStrict : Bool :=
+  Gen.HclYaml.readAmmoFlow == [("(afero.Fs).Open", "refuses"), ("(afero.File).Stat", "refuses"), ("Close", "deferred-refuses")] &&
+  Gen.HclYaml.readAmmoNamedErr
+
+theorem read_flow : readFlowStrict = true := by decide
 
 end Pandora.Bridge.HclYaml
